@@ -167,6 +167,89 @@ def family(rng):
     return mk_grammar(sk, terms, {"S"})
 
 
+def lane_random(rng):
+    """lane-table stress grammar (LR(1), mostly not LALR(1)) with a few random edits, so that
+    conflicts appear in only some of the left contexts the lane table has to split"""
+    from .. import gen3
+    g = gen3.gen_lane_stress(rng, actions=False)
+    rules = {nt.name: [[it.sym.name for it in alt.items] for alt in nt.alts] for nt in g.nts}
+    terms = list(g.terms)
+    names = list(rules)
+    twins = [n for n in names if n != "S"]
+    for _ in range(rng.choice([0, 1, 1, 2, 3])):
+        k = rng.random()
+        n = rng.choice(twins)
+        if k < 0.25:
+            # loop: X -> body | body X   (lanes with back edges)
+            body = rules[n][0]
+            rules[n].append(list(body) + [rng.choice([n, n, rng.choice(twins)])])
+        elif k < 0.45:
+            # nullable helper at the end of one alternative
+            w = "W%d" % len(rules)
+            rules[w] = [[], [rng.choice(terms), rng.choice(terms)]] if rng.random() < 0.6 else [[], [rng.choice(terms)]]
+            names.append(w)
+            alt = rng.choice(rules[n])
+            alt.append(w)
+        elif k < 0.65:
+            rules[n].append([rng.choice(terms + twins) for _ in range(rng.randint(1, 3))])
+        elif k < 0.8:
+            alt = rng.choice(rules["S"])
+            alt.insert(rng.randint(0, len(alt)), rng.choice(terms))
+        else:
+            alt = rng.choice(rules[n])
+            if alt:
+                alt[rng.randrange(len(alt))] = rng.choice(terms)
+    sk = {n: [[(T(x) if x in terms else N(x)) for x in alt] for alt in alts] for n, alts in rules.items()}
+    for n in sk:
+        uniq = []
+        for a in sk[n]:
+            if a not in uniq:
+                uniq.append(a)
+        sk[n] = uniq
+    return mk_grammar(sk, terms, {"S"})
+
+
+def lane_loop(rng):
+    """two left contexts x two twin nonterminals with LOOPING bodies (lanes with back edges),
+    follow tokens arranged so the grammar is LR(1) but not LALR(1), plus one extra production
+    whose FIRST set collides with the follow token of only one context: a conflict that exists
+    in one of the split copies of a state and not in the other."""
+    t = list("abcdefghij")
+    rng.shuffle(t)
+    a, b, c, d, e, f, g2, h = t[:8]
+    X, Y = "X", "Y"
+    fol = [(a, X, d), (a, Y, c), (b, X, c), (b, Y, d)]
+    if rng.random() < 0.3:
+        fol = [(a, X, c), (a, Y, d), (b, X, d), (b, Y, c)]
+    rules = {"S": [[p, n, q] for (p, n, q) in fol]}
+    loop = rng.choice(["right", "right", "left", "none"])
+    for n in (X, Y):
+        if loop == "right":
+            rules[n] = [[e], [e, f, n]]
+        elif loop == "left":
+            rules[n] = [[e], [n, f, e]]
+        else:
+            rules[n] = [[e], [e, f]]
+    if rng.random() < 0.85:
+        n = rng.choice([X, Y])
+        wshape = rng.choice([[[], [c, c]], [[], [c]], [[], [d, d]], [[c], [c, c]], [[], [g2]], [[], [c, d]]])
+        rules["W"] = [list(x) for x in wshape]
+        where = rng.random()
+        if where < 0.6:
+            rules[n].append([e, f, "W"])
+        elif where < 0.8:
+            rules[n].append([e, "W"])
+        else:
+            rules[n].append(["W", e])
+    if rng.random() < 0.3:
+        rules["S"].append([rng.choice([X, Y]), rng.choice([c, d, h])])
+    if rng.random() < 0.3:
+        rules["S"].pop(rng.randrange(len(rules["S"])))
+    terms = sorted({x for alts in rules.values() for alt in alts for x in alt if x not in rules})
+    sk = {n: [[(T(x) if x in terms else N(x)) for x in alt] for alt in alts] for n, alts in rules.items()}
+    return mk_grammar(sk, terms, {"S"})
+
+
 def tiny_space():
     """all grammars with one nonterminal S over {a, b}: 1..3 distinct alternatives, RHS <= 2"""
     syms = ["a", "b", "S"]
@@ -195,6 +278,8 @@ def job(spec):
         g = sugar_random(rng)
     elif kind == "family":
         g = family(rng)
+    elif kind == "lane":
+        g = lane_random(rng) if rng.random() < 0.5 else lane_loop(rng)
     else:
         rules = arg
         sk = {n: [[(T(x) if x in ("a", "b") else N(x)) for x in alt] for alt in alts] for n, alts in rules.items()}
@@ -225,7 +310,7 @@ def run(tier, seed):
     assert lr1.selftest()
     bin_ = core.build_lalrpop()
     base = core.seed_for("C03", seed) % (2 ** 31)
-    n = {"quick": (1500, 800, 800, 1200), "thorough": (60000, 30000, 10000, None)}[tier]
+    n = {"quick": (1000, 600, 500, 800, 900), "thorough": (60000, 30000, 10000, None, 30000)}[tier]
     specs = []
     wr = chk.work
     for rules in tiny_space():
@@ -241,6 +326,8 @@ def run(tier, seed):
         specs.append(("sugar", base + 10 ** 6 + i, bin_, wr))
     for i in range(n[2]):
         specs.append(("family", base + 2 * 10 ** 6 + i, bin_, wr))
+    for i in range(n[4]):
+        specs.append(("lane", base + 3 * 10 ** 6 + i, bin_, wr))
     results = core.pmap(job, specs, chunksize=16)
     seen = set()
     for r in results:
